@@ -1561,3 +1561,13 @@ TWINS = [
      ("            for bn in list(self.basins):\n",
       "            for bn in tuple(self.basins):\n")),
 ]
+
+# mutants that re-introduce the repaired defect F14 (apply to the fixed tree)
+MUTANTS = list(MUTANTS) + [
+    ("type/class agreement test removed (F14 returns)",
+     "dclab/rtdc_dataset/core.py",
+     ('elif bdict["type"] != b_cls.basin_type:', 'elif False:'), "R14.1"),
+    ("agreement test compares the format", "dclab/rtdc_dataset/core.py",
+     ('elif bdict["type"] != b_cls.basin_type:',
+      'elif bdict["format"] != b_cls.basin_format:'), "R14.1"),
+]
